@@ -646,6 +646,7 @@ def run_e2e(ctx, host, nrelease, release, tooltags):
             if r["rc"] != 0:
                 r = mg.run(proj, ["-l"], env=j["env"])
             res["rc"] = r["rc"]
+            res["raw"] = {"stdout": r["out"][-1500:], "stderr": r["err"][-1500:]}      # kept in the replay file for diagnosis only
             res["targets"] = sorted(projlib.parse_list(r["out"])["targets"])
             res["warn"] = bool(r["err"].strip())      # some warning on stderr; its wording is not read
             res["err"] = r["err"][-1500:] if r["rc"] != 0 else ""
@@ -669,7 +670,7 @@ def run_e2e(ctx, host, nrelease, release, tooltags):
     ditems, dmeta = [], []
     for j, res in zip(jobs, results):
         plat = j["plat"]
-        case = {"e2e": {k: j[k] for k in ("kind", "top", "sub", "env", "plat", "flags")}}
+        case = {"e2e": {k: j[k] for k in ("kind", "top", "sub", "env", "plat", "flags")}, "observed": {k: v for k, v in res.items() if k != "err"}, "project": j["proj"]}
         ctx.add("e2e_" + j["kind"])
         use_sub = j["sub"] is not None and not exp(j["top"], plat, False)
         d = j["sub"] if use_sub else j["top"]
